@@ -333,7 +333,9 @@ func K9() *Entry {
 		"User.Spec.Meta": {{Name: "spec_meta_note", Type: "github.com/hashicorp/terraform-plugin-framework/types.StringType", Optional: true, Computed: true, PlanModifiers: []string{USFU}}},
 	}
 	// a custom type addressed by full path at one of several occurrences of the message type
-	c.CustomTypes = map[string]string{"User.Backup.Name": "verif/types.Joined"}
+	c.CustomTypes = map[string]string{"User.Backup.Name": "verif/types.Joined",
+		// a message-typed custom field all of whose children are excluded (the hooks own the field; the exclusions are moot)
+		"User.History.Owner": "verif/types.Boxed"}
 	// computed fields with and without explicit plan modifiers while UseStateForUnknown is the default
 	c.UseStateForUnknown = true
 	c.ComputedFields = []string{"User.Title", "Meta.Revision", "User.Spec.Level"}
@@ -348,7 +350,7 @@ func K9() *Entry {
 		}
 	}
 	// a path-specific exclusion below a nested occurrence of an exported type
-	c.ExcludeFields = []string{"Pref.Meta.Labels", "User.Spec.Meta.Owner.Email"}
+	c.ExcludeFields = []string{"Pref.Meta.Labels", "User.Spec.Meta.Owner.Email", "User.History.Owner.Login", "User.History.Owner.Email"}
 	// an explicit empty list under a full path switches off what the Message.Field key configures
 	c.Validators = map[string][]string{"Meta.Revision": {V("rev")}, "User.Meta.Revision": {}, "Owner.Login": {V("login1"), V("login2")}, "User.Backup.Owner.Login": {}}
 	// (on a field that is not computed: whether an explicit empty list also switches the UseStateForUnknown default off is not documented)
@@ -516,7 +518,10 @@ func K15() *Entry {
 	f := file("k15", holder, entry, pair, any, gamma)
 	AutoComments(f)
 	c := BaseConfig("Shelf", "LabelEntry", "PairEntry", "Any", "Gamma")
-	c.ExcludeFields = []string{"Gamma.Secret", "Gamma.Token"}
+	c.ExcludeFields = []string{"Gamma.Secret", "Gamma.Token", "Shelf.Entries.key", "Shelf.Entries.value"}
+	// a repeated message field handled by custom-type hooks, its children excluded
+	c.CustomTypes = map[string]string{"Shelf.Entries": "verif/types.Boxed"}
+	c.Suffixes = map[string]string{"verif/types.Boxed": "BoxedEntries"}
 	c.InjectedFields = map[string][]ir.Injected{"Gamma": {{Name: "injected_id", Type: "github.com/hashicorp/terraform-plugin-framework/types.StringType", Computed: true}}}
 	return &Entry{Name: "k15", File: f, Cfg: c, Tags: []string{"entry-shaped-message", "all-fields-excluded"}}
 }
